@@ -43,7 +43,7 @@ META = {
                   "every run by step-level correspondence: real runs of NSGAII, NSGAIII, SPEA2, GDE3, EpsNSGAII, EpsMOEA, GA, ES, OMOPSO, CMAES, NSGAII(archive) "
                   "are observed at the iterate() boundary (parents, evaluated offspring batch, survivors, every archive.add) with object identities, and the Coq "
                   "models must return the same identity lists (vm_compute); plus an independent brute-force oracle of the property statement on every step.",
-    "level_note": "Trusted: Coq kernel + VM; the harness (instance-level wrappers of iterate/evaluate_all/archive.add, literal printer, shard runner, the float-exactness "
+    "level_note": "Tie/T09.v also states single-objective elitism about the GeneticAlgorithm.iterate / EvolutionaryStrategy.iterate GENERATED from the source text (tie_c09_generated_*). Trusted: Coq kernel + VM; the harness (instance-level wrappers of iterate/evaluate_all/archive.add, literal printer, shard runner, the float-exactness "
                   "monitor XF); the hand-written models are tied to the code only on the sampled runs (population sizes 1-9, 1-5 objectives). Arithmetic models are "
                   "exact rational arithmetic: IEEE rounding in crowding distances, epsilon boxes and SPEA2 distances is not modelled; the arithmetic correspondences run "
                   "on integer-valued lattice problems where every float operation is checked exact with fractions.Fraction (inexact steps are discarded from the "
